@@ -357,6 +357,8 @@ func c12(c *Ctx) {
 		}
 	}
 
+	checkStubInstalledWithContinuation(p, r, "C12.R2", nil)
+
 	// ---------- R3: override consumed ⇒ reset
 	if pkgFld != nil {
 		var resetFns []*ssa.Function
@@ -592,4 +594,133 @@ func declaredMethod(p *Prog, n *types.Named, name string) *ssa.Function {
 		}
 	}
 	return nil
+}
+
+// checkStubInstalledWithContinuation: in every method that creates the stub continuation (stores a non-nil *When into the
+// mocker) the stub callback is (re)installed on every path — directly or through helpers that install on all their paths.
+func checkStubInstalledWithContinuation(p *Prog, r *Report, rule string, only func(*ssa.Function) bool) {
+	whenT := p.NamedType("", "When")
+	if whenT == nil {
+		r.Und(rule, "When", "", "type When not found")
+		return
+	}
+	root := p.FuncsIn("")
+	var contFld *types.Var
+	for _, n := range namedTypesOf(p.Pkg("").Types) {
+		if st, ok := n.Underlying().(*types.Struct); ok && n != whenT {
+			for i := 0; i < st.NumFields(); i++ {
+				if pt, ok := st.Field(i).Type().(*types.Pointer); ok && types.Identical(pt.Elem(), whenT) {
+					contFld = st.Field(i)
+				}
+			}
+		}
+	}
+	if contFld == nil {
+		r.Und(rule, "stub continuation", "", "no *When field")
+		return
+	}
+	// installers: functions of the root package from which a non-restore text write or the interface apply is reachable
+	var targets []*ssa.Function
+	for _, s := range p.textWriteSites() {
+		if s.Kind != "restore" {
+			targets = append(targets, s.Fn)
+		}
+	}
+	if f := p.Fn("internal/proxy", "Interface"); f != nil {
+		targets = append(targets, f)
+	}
+	reach := p.modReachers(targets...)
+	memo := map[*ssa.Function]int{}
+	var must func(f *ssa.Function) bool
+	isInstallCall := func(i ssa.Instruction) bool {
+		ci, ok := i.(ssa.CallInstruction)
+		if !ok {
+			return false
+		}
+		if _, isGo := i.(*ssa.Go); isGo {
+			return false
+		}
+		for _, cal := range p.modCallees(ci) {
+			if relPkg(cal) != "" {
+				if reach[cal] {
+					return true
+				}
+				continue
+			}
+			if must(cal) {
+				return true
+			}
+		}
+		return false
+	}
+	must = func(f *ssa.Function) bool {
+		switch memo[f] {
+		case 1:
+			return true
+		case 2, 3:
+			return false
+		}
+		if f.Blocks == nil || !reach[f] {
+			memo[f] = 2
+			return false
+		}
+		memo[f] = 3
+		ok := true
+		for _, ret := range returnsOf(f) {
+			if !passedBefore(f, ret, isInstallCall, nil) {
+				ok = false
+			}
+		}
+		if ok {
+			memo[f] = 1
+		} else {
+			memo[f] = 2
+		}
+		return ok
+	}
+	n := 0
+	for _, f := range root {
+		if f.Object() == nil || !f.Object().Exported() || f.Signature.Recv() == nil || (only != nil && !only(f)) {
+			continue
+		}
+		// does f (or a helper it calls directly) store a non-nil continuation?
+		creates := false
+		check := func(g *ssa.Function) {
+			eachInstr(g, func(i ssa.Instruction) {
+				if st, ok := i.(*ssa.Store); ok && !isNilConst(st.Val) {
+					if fa, ok := st.Addr.(*ssa.FieldAddr); ok && fieldVar(fa.X.Type(), fa.Field) == contFld && !isLocalAddr(fa.X) {
+						creates = true
+					}
+				}
+			})
+		}
+		check(f)
+		eachInstr(f, func(i ssa.Instruction) {
+			if ci, ok := i.(ssa.CallInstruction); ok {
+				if cal := staticCallee(ci.Common()); cal != nil && relPkg(cal) == "" && cal.Name() == "whens" {
+					check(cal)
+				}
+			}
+		})
+		if !creates {
+			continue
+		}
+		n++
+		// on the paths where a continuation is created (i.e. not the early "extend existing" returns), install must happen:
+		okAll := true
+		for _, ret := range returnsOf(f) {
+			// early returns that delegate to the existing continuation are guarded by cont != nil
+			if isNil, known := nilGuardOnField(ret.Block(), contFld); known && !isNil {
+				continue
+			}
+			if !passedBefore(f, ret, isInstallCall, nil) {
+				okAll = false
+			}
+		}
+		r.Check(okAll, rule, shortName(f)+" installs the stub whenever it creates the continuation", p.Pos(f.Pos()), "every creating path passes an installing call",
+			"a path creates the When continuation without (re)installing the stub callback (the install is skipped or conditional on a sticky flag): after stub → Apply(cb) → stub, calls still reach cb and the new stub is ignored")
+	}
+	if n == 0 {
+		r.Und(rule, "continuation-creating methods", "", "none found")
+	}
 }
